@@ -125,6 +125,7 @@ func init() {
 		"(*os.File).Write":                        fsFileWrite,
 		"(*os.File).WriteAt":                      fsWriteAt,
 		"(*os.File).ReadAt":                       fsReadAt,
+		"(*os.File).Close":                        fsClose,
 		glowPath + ".SendUDPReport":               sendUDPReport,
 		"(*" + modulePath + "/server.zipArchiveWriter).AddFile": arcAddFile,
 		"(*os.File).WriteString":                  fsWrite,
